@@ -42,7 +42,10 @@ type tCase struct {
 	Name, Path string
 	Parse, Calls []string
 }
+type tReader struct{ Name, CT, Where, Getter string }
+
 type tables struct {
+	Readers                                   []tReader
 	Globals                                   []tEntry
 	Miner, Storage                            []tEntry
 	Faucet, Vesting, Zcn                      []tCase
@@ -51,6 +54,12 @@ type tables struct {
 
 func (t *tables) UnmarshalJSON(b []byte) error {
 	var raw struct {
+		Readers        []struct {
+			Name   string `json:"name"`
+			CT     string `json:"ct"`
+			Where  string `json:"where"`
+			Getter string `json:"getter"`
+		} `json:"global_readers"`
 		Globals        []tEntry `json:"globals"`
 		Miner          []tEntry `json:"miner"`
 		Storage        []tEntry `json:"storage"`
@@ -64,7 +73,11 @@ func (t *tables) UnmarshalJSON(b []byte) error {
 	if err := json.Unmarshal(b, &raw); err != nil {
 		return err
 	}
-	*t = tables{raw.Globals, raw.Miner, raw.Storage, raw.Faucet, raw.Vesting, raw.Zcn, raw.FaucetCostFns, raw.VestingCostFns, raw.ZcnCostFns}
+	var rs []tReader
+	for _, r := range raw.Readers {
+		rs = append(rs, tReader{r.Name, r.CT, r.Where, r.Getter})
+	}
+	*t = tables{rs, raw.Globals, raw.Miner, raw.Storage, raw.Faucet, raw.Vesting, raw.Zcn, raw.FaucetCostFns, raw.VestingCostFns, raw.ZcnCostFns}
 	return nil
 }
 
